@@ -31,10 +31,13 @@ class Result:
         self.raw = None
 
 
-def run_labelled(algo, O, S, leafmap, leafsyn, costs, policy, rootsyn=None, keep_raw=False):
+def run_labelled(algo, O, S, leafmap, leafsyn, costs, policy, rootsyn=None, keep_raw=False, session=None):
     fn, model, _ = SOLVERS[algo]
     is_ord = model == "ordered"
-    inp, onode, snode = A.build_input(O, S, leafmap, costs, leafsyn, unordered=not is_ord, rootsyn=rootsyn)
+    if session is not None:
+        inp, onode, snode = session.set(leafmap, costs, leafsyn, rootsyn)
+    else:
+        inp, onode, snode = A.build_input(O, S, leafmap, costs, leafsyn, unordered=not is_ord, rootsyn=rootsyn)
     r = Result()
     try:
         outs = list(fn(inp, A.POLICY[policy]))
